@@ -79,6 +79,7 @@ func (fc *FnCtx) doCall(st *State, c *ssa.CallCommon, in ssa.Instruction, site s
 	}
 	// 5. unknown external function: results havocked
 	fc.notes.Havocked[name] = true
+	fc.havocOn(st, name)
 	if touchesBuffer(callee) {
 		// an unspecified operation on the buffer or the encoder: the ghost buffer model is lost
 		for _, hv := range []HeapVar{bufLenVar, bufItemsVar, bufEndVar} {
@@ -207,6 +208,18 @@ func (fc *FnCtx) applyContract(st *State, ct *Contract, callee *ssa.Function, si
 	if ct.Extern || ct.Trusted != "" {
 		fc.notes.Assumed["assumed contract (body not verified): "+ct.Key+" - "+ct.Trusted] = true
 	}
+	if ct.Extern {
+		// a callee that is only specified may be handed the address of an embedded struct:
+		// it is an identity to the specification, nothing is accessed through it
+		args = append([]Val{}, args...)
+		for i := range args {
+			if args[i].P != nil && args[i].T.IsZero() {
+				if t, ok := fc.ptrAsTerm(args[i]); ok {
+					args[i] = Val{T: t}
+				}
+			}
+		}
+	}
 	if callee != nil && len(callee.Params) == 0 && len(args) > 0 {
 		// a function without a body (another module): names come from the signature
 		sig = callee.Signature
@@ -321,7 +334,24 @@ func (fc *FnCtx) applyContract(st *State, ct *Contract, callee *ssa.Function, si
 	post.Results = res
 	fc.applyGhostSets(ct, &post, st)
 	for _, cl := range ct.Ensures {
-		t := fc.evalClause(&post, cl)
+		var t Term
+		skipped := false
+		func() {
+			defer func() {
+				if r := recover(); r != nil {
+					// a clause about the callee's own local variables means nothing to a caller: it learns less
+					if u, ok := r.(unsupported); ok && strings.Contains(u.msg, "unknown identifier") {
+						skipped = true
+						return
+					}
+					panic(r)
+				}
+			}()
+			t = fc.evalClause(&post, cl)
+		}()
+		if skipped {
+			continue
+		}
 		fc.S.Assume(Implies(st.PC, t), "postcondition of "+ct.Key+" ["+cl.Label+"]")
 	}
 	switch len(vals) {
